@@ -60,11 +60,12 @@ configurations: max_iterations {1, 2, 25} x max_shape {1.5, 5, 1000} x rescaling
   default 1000 intervals} x singletons_phased {True, False (diploid inputs)}; regularise_roots and
   match_segregating_sites alternate deterministically; mutation rate scaled by {1, 1e-3, 1e3} relative to the
   simulated one on a subset (misspecified clock: drives near-degenerate messages).
-stress configurations on every input: clock wrong by a factor 1e6 / 1e-6 with max_shape in {1.5, 5, 1000, 1e8}; these
+stress configurations on every input: clock wrong by a factor 1e2..1e7 / 1e-6 with max_shape in {1.5, 5, 1000, 1e5, 1e6,
+  1e8}, with and without root regularisation; these
   are the settings under which EP updates really are skipped (NaN edge constants, undefined mutation posteriors and
   phases; counted in the notes), i.e. the "skipped update" alternatives of the statement are driven on purpose.
-quick   : ~27 inputs x (8 grid configurations drawn without replacement + 4 stress configurations) (~330 calls).
-thorough: ~75 inputs x (the full grid + 8 stress configurations).
+quick   : ~34 inputs x (6 grid configurations drawn without replacement + 5 stress configurations) (~400 calls).
+thorough: ~80 inputs x (the full grid + 12 stress configurations).
 Not exhaustive.
 
 Calls that raise: every exception is counted by type in the notes, never silently dropped.  If the exception is
@@ -522,12 +523,12 @@ def run(req, rep):
     iters = [1, 2, 25]
     shapes = [1.5, 5, 1000]
     rescalings = [0, 1, 4, None]   # None: library default (1000 intervals)
-    per_input = 8 if quick else None
+    per_input = 6 if quick else None
     rep.space = ("real tsdate.variational_gamma(return_fit=True) on small simulated / hand-built inputs (haploid, diploid "
                  "unphased, historical and internal samples, polytomies, stars, mutations above roots, partly isolated "
                  "samples, sparse/dense mutations, long/short genomes) x max_iterations x max_shape x rescaling x "
                  "singletons_phased x clock misspecification")
-    rep.bound = (f"{len(ins)} inputs (<= 60 nodes) x " + ("8 configurations drawn from" if quick else "all of") +
+    rep.bound = (f"{len(ins)} inputs (<= 60 nodes) x " + ("6 configurations drawn from" if quick else "all of") +
                  f" max_iterations {iters} x max_shape {shapes} x rescaling_intervals {rescalings} x phasing; seed {seed}")
     rep.exhaustive = False
     stats = {"calls": 0, "exceptions": {}, "nodes": 0, "nodes_at_cap": 0, "mutations": 0, "mutations_above_root": 0,
@@ -546,13 +547,17 @@ def run(req, rep):
             evaluate(rep, stats, tsdate, key, name, ts, cfg)
         # stress configurations: clock wrong by 1e6 either way and a very loose / default cap -- these are the settings
         # under which EP updates are actually skipped (NaN edge constants, NaN mutation posteriors and phases)
-        for (factor, ms, it) in ([(1e6, 1e8, 10), (1e4, 1e8, 25), (1e6, 1000, 25), (1e-6, 1.5, 2)] if quick else
-                                 [(1e6, 1e8, 10), (1e4, 1e8, 25), (1e2, 1e6, 25), (1e6, 1000, 25), (1e6, 5, 3), (1e-6, 1.5, 2),
-                                  (1e-6, 1000, 25), (1e-6, 1e8, 10)]):
+        stress = ([(1e6, 1e8, 10, True), (1e4, 1e8, 25, True), (1e5, 1e8, 10, False), (1e6, 1000, 10, True),
+                   (1e-6, 1.5, 2, True)] if quick else
+                  [(1e6, 1e8, 10, True), (1e4, 1e8, 25, True), (1e2, 1e6, 25, True), (1e5, 1e8, 10, False),
+                   (1e7, 1e8, 10, False), (1e6, 1e5, 10, False), (1e6, 1000, 25, True), (1e6, 1000, 25, False),
+                   (1e6, 5, 3, True), (1e-6, 1.5, 2, True), (1e-6, 1000, 25, False), (1e-6, 1e8, 10, True)])
+        for (factor, ms, it, reg) in stress:
             for phased in phasings:
                 cfg = {"mutation_rate": mu * factor, "max_iterations": it, "max_shape": ms, "rescaling_intervals": 0,
-                       "singletons_phased": phased, "regularise_roots": True, "match_segregating_sites": False}
-                evaluate(rep, stats, tsdate, f"{name}/stress/it{it}/ms{ms:g}/ph{int(phased)}/mux{factor:g}", name, ts, cfg)
+                       "singletons_phased": phased, "regularise_roots": reg, "match_segregating_sites": False}
+                evaluate(rep, stats, tsdate, f"{name}/stress/it{it}/ms{ms:g}/reg{int(reg)}/ph{int(phased)}/mux{factor:g}",
+                         name, ts, cfg)
     rep.notes.append("coverage: " + ", ".join(f"{k}={v}" for k, v in stats.items() if k != "exceptions"))
     rep.notes.append("calls that raised, by type (see docstring for how each is judged): " +
                      (", ".join(f"{v} x [{k}]" for k, v in sorted(stats["exceptions"].items())) or "none"))
